@@ -212,42 +212,151 @@ def classCode (s : Str) : Option Nat :=
 
 def upper (s : Str) : Str := s.map fun c => if 97 ≤ c ∧ c ≤ 122 then c - 32 else c
 
-/-- a resource record as an entry states it: owner (as text or inherited), class, TTL, the type
-mnemonic and the RDATA items -/
+def U32_MAX : Nat := 4294967295
+
+/-- an item of the `[<TTL>] [<class>]` part -/
+inductive PreMeaning where
+  | ttl (v : Nat)
+  | cls (c : Nat)
+  deriving DecidableEq, Repr
+
+/-- "TTL is a decimal integer", "Class and type use the standard mnemonics" -/
+def preMeaning (s : Str) : Option PreMeaning :=
+  if isDecimal s then (if decVal s ≤ U32_MAX then some (.ttl (decVal s)) else none)
+  else (classCode (upper s)).map .cls
+
+/-- type mnemonics (upper case) of the record types this check covers → type code -/
+def typeCode (s : Str) : Option Nat :=
+  if s = [65] then some 1                                   -- A
+  else if s = [78, 83] then some 2                          -- NS
+  else if s = [67, 78, 65, 77, 69] then some 5              -- CNAME
+  else if s = [83, 79, 65] then some 6                      -- SOA
+  else if s = [80, 84, 82] then some 12                     -- PTR
+  else if s = [77, 88] then some 15                         -- MX
+  else if s = [84, 88, 84] then some 16                     -- TXT
+  else if s = [65, 65, 65, 65] then some 28                 -- AAAA
+  else if s = [83, 82, 86] then some 33                     -- SRV
+  else if s = [65, 78, 65, 77, 69] then some 65305          -- ANAME
+  else none
+
+/-- the owner field of an `<rr>` entry; a stated `<domain-name>` comes with the name it denotes
+(the relation between the two is a hypothesis of the theorems, see `nameUses`) -/
+inductive OwnerSpec where
+  | inherit (b : Nat)              -- <blank>: "owned by the last stated owner"
+  | at                             -- `@`: the current origin
+  | name (w : Str) (n : Name)
+  deriving DecidableEq, Repr
+
+structure RRLine where
+  owner : OwnerSpec
+  pre : List (Str × Str)           -- (blanks, item) of the `[<TTL>] [<class>]` part, in file order
+  typ : Str × Str                  -- (blanks, type mnemonic)
+  rdata : List Piece
+  eol : Eol
+  deriving DecidableEq, Repr
+
+/-- the entry forms of §5.1 (+ `$TTL` of RFC 2308; `$INCLUDE` is outside this check) -/
+inductive SLine where
+  | filler (b : Option Nat) (eol : Eol)                 -- <blank>[<comment>]
+  | origin (ws w : Str) (n : Name) (eol : Eol)          -- $ORIGIN <domain-name> [<comment>]
+  | ttl (ws d : Str) (eol : Eol)                        -- $TTL <TTL> [<comment>]
+  | rr (r : RRLine)                                     -- <domain-name><rr> | <blank><rr>
+  deriving DecidableEq, Repr
+
+def ownerStart : OwnerSpec → Start
+  | .inherit b => .blank b
+  | .at => .at
+  | .name w _ => .word w
+
+def wordPiece (p : Str × Str) : Piece := .item p.1 (.word p.2)
+
+def SLine.line : SLine → Line
+  | .filler none e => ⟨.none, [], e⟩
+  | .filler (some b) e => ⟨.blank b, [], e⟩
+  | .origin ws w _ e => ⟨.origin, [wordPiece (ws, w)], e⟩
+  | .ttl ws d e => ⟨.ttl, [wordPiece (ws, d)], e⟩
+  | .rr r => ⟨ownerStart r.owner, r.pre.map wordPiece ++ wordPiece r.typ :: r.rdata, r.eol⟩
+
+/-- a resource record as an entry states it, inheritance resolved: owner, class, TTL, type code,
+the origin in force (for relative names in the RDATA) and the RDATA items -/
 structure Entry where
   owner : Name
   cls : Nat
   ttl : Nat
-  typ : Str
+  typ : Nat
+  origin : Option Name
   rdata : List Str
   deriving DecidableEq, Repr
 
 /-- the reader's state between lines -/
 structure RState where
-  origin : Name
+  origin : Option Name
   owner : Option Name := none        -- "the last stated owner"
-  dflt : Option Nat := none          -- $TTL
+  dflt : Option Nat := none          -- `$TTL`
   lastTtl : Option Nat := none       -- "the last explicitly stated" TTL
-  cls : Nat := 1                     -- "the last explicitly stated" class (zones are IN to start)
+  cls : Nat := 1                     -- "the last explicitly stated" class (a zone starts as IN)
   deriving DecidableEq, Repr
 
-/-- `[<TTL>] [<class>] <type> <RDATA>` in either order: splits the items of an `<rr>` -/
-def splitRR (vals : List Str) : Option (Option Nat × Option Nat × Str × List Str) :=
-  let isTtl (s : Str) := isDecimal s
-  let isCls (s : Str) := (classCode (upper s)).isSome
-  match vals with
-  | a :: b :: t :: rest =>
-    if isTtl a ∧ isCls b then some (some (decVal a), classCode (upper b), t, rest)
-    else if isCls a ∧ isTtl b then some (some (decVal b), classCode (upper a), t, rest)
-    else if isTtl a then some (some (decVal a), none, b, t :: rest)
-    else if isCls a then some (none, classCode (upper a), b, t :: rest)
-    else some (none, none, a, b :: t :: rest)
-  | a :: t :: rest =>
-    if isTtl a then some (some (decVal a), none, t, rest)
-    else if isCls a then some (none, classCode (upper a), t, rest)
-    else some (none, none, a, t :: rest)
-  | [t] => some (none, none, t, [])
+/-- the TTL an `<rr>` states itself: the last TTL item (there is at most one in RFC 1035) -/
+def lastTtl? : List PreMeaning → Option Nat
   | [] => none
+  | .ttl v :: ms => (lastTtl? ms).or (some v)
+  | .cls _ :: ms => lastTtl? ms
+
+/-- the class an `<rr>` states itself -/
+def lastCls? : List PreMeaning → Option Nat
+  | [] => none
+  | .cls c :: ms => (lastCls? ms).or (some c)
+  | .ttl _ :: ms => lastCls? ms
+
+/-- reading one entry: the new state and the record it states, if any.
+"If an entry for an RR begins with a blank, then the RR is assumed to be owned by the last stated
+owner."  "Omitted class and TTL values are default to the last explicitly stated values."
+RFC 2308 §4: records that state no TTL after a `$TTL` take the `$TTL` value. -/
+def readLine (st : RState) : SLine → Option (RState × Option Entry)
+  | .filler _ _ => some (st, none)
+  | .origin _ _ n _ => some ({ st with origin := some n }, none)
+  | .ttl _ d _ =>
+    if isDecimal d ∧ decVal d ≤ U32_MAX then some ({ st with dflt := some (decVal d) }, none) else none
+  | .rr r =>
+    let owner? := match r.owner with
+      | .inherit _ => st.owner
+      | .at => st.origin
+      | .name _ n => some n
+    match owner?, r.pre.mapM (fun p => preMeaning p.2), typeCode (upper r.typ.2) with
+    | some owner, some ms, some code =>
+      let cls := (lastCls? ms).getD st.cls
+      match (lastTtl? ms).or (st.dflt.or st.lastTtl) with
+      | some ttl =>
+        some ({ st with owner := some owner, lastTtl := (lastTtl? ms).or st.lastTtl, cls := cls },
+              some { owner := owner, cls := cls, ttl := ttl, typ := code, origin := st.origin,
+                     rdata := r.rdata.flatMap Piece.vals })
+      | none => none
+    | _, _, _ => none
+
+/-- reading a file: the final state and the records it states, in file order -/
+def readFile (st : RState) : List SLine → Option (RState × List Entry)
+  | [] => some (st, [])
+  | l :: ls =>
+    match readLine st l with
+    | none => none
+    | some (st', e) =>
+      match readFile st' ls with
+      | none => none
+      | some (st'', es) => some (st'', e.toList ++ es)
+
+/-- every place where a name is written: (text, the name it is taken to denote, origin in force;
+`none` for the argument of `$ORIGIN`, which is read without an origin) -/
+def nameUses (st : RState) : List SLine → List (Str × Name × Option Name)
+  | [] => []
+  | l :: ls =>
+    let here := match l with
+      | .origin _ w n _ => [(w, n, none)]
+      | .rr r => (match r.owner with | .name w n => [(w, n, st.origin)] | _ => [])
+      | _ => []
+    match readLine st l with
+    | some (st', _) => here ++ nameUses st' ls
+    | none => here
 
 /-! ### the layouts hickory is known to mishandle — classes of the known findings
 
